@@ -136,6 +136,84 @@ def closure_signature(cl):
     return sig
 
 
+def depends_on_args(b, v, depth=0, seen=None):
+    """parameters a value is (transitively) computed from: through aggregates, call arguments,
+    binary operands and values captured by closures"""
+    if seen is None:
+        seen = set()
+    out = set()
+    if depth > 12 or v is None:
+        return out
+    key = repr(v)
+    if key in seen:
+        return out
+    seen.add(key)
+    if v.kind == 'arg':
+        out.add(v.key)
+    elif v.kind == 'agg':
+        for o in v.key[3]:
+            out |= depends_on_args(b, o, depth + 1, seen)
+    elif v.kind == 'bin':
+        for o in v.key[1:]:
+            out |= depends_on_args(b, o, depth + 1, seen)
+    elif v.kind == 'un':
+        out |= depends_on_args(b, v.key[1], depth + 1, seen)
+    elif v.kind == 'discr':
+        out |= depends_on_args(b, v.key, depth + 1, seen)
+    elif v.kind == 'call':
+        c = b.call_at(v.key)
+        if c is not None:
+            for a in c.args:
+                out |= depends_on_args(b, b.val(a), depth + 1, seen)
+    elif v.kind == 'local':
+        for d in b.defs.get(v.key, []):
+            if d[1] == 'call':
+                out |= depends_on_args(b, V('call', d[0]), depth + 1, seen)
+            elif d[2]['rv']['k'] == 'use':
+                out |= depends_on_args(b, b.val(d[2]['rv']['op']), depth + 1, seen)
+    return out
+
+
+def search_is_pure_or_memo_complete(ctx, F, ty, rule):
+    """The verdict of the recursive search may depend only on its arguments. A `&mut` parameter is
+    state shared across sibling branches (a memo): then every key stored/looked up must be computed
+    from ALL the inputs that can differ between two calls (object state, remaining history, in-flight
+    operations)."""
+    short = ty.split('::')[-1]
+    b = tester_fn(F, ty, 'serialize')
+    inputs = {}
+    muts = []
+    for i in range(1, b.arg_count + 1):
+        t = b.locals[i]['ty']
+        if t.startswith('&mut '):
+            muts.append(i)
+        elif t.startswith('&'):
+            inputs[i] = t
+    if not muts:
+        ctx.ok(rule, 'search-is-pure', b, 'serialize takes no &mut parameter: sibling branches share no state')
+        return
+    for m in muts:
+        uses = [c for c in b.calls if c.args and noref(b.val(c.args[0])) == V('arg', m) and
+                c.is_('BTreeSet::insert', 'BTreeSet::contains', 'HashSet::insert', 'HashSet::contains',
+                      'BTreeMap::insert', 'BTreeMap::get', 'BTreeMap::contains_key', 'HashMap::insert', 'HashMap::get',
+                      'HashMap::contains_key', 'Vec::push', 'Vec::contains', 'slice::contains')]
+        if not uses:
+            ctx.bad(rule, 'shared-state:arg%d' % m, b,
+                    '%s::serialize threads a `&mut` parameter (%s) through the recursion whose use the rule '
+                    'cannot read: sibling branches may influence each other' % (short, b.locals[m]['ty'][:60]))
+            continue
+        for c in uses:
+            deps = depends_on_args(b, b.val(c.args[1])) if len(c.args) > 1 else set()
+            missing = [i for i in inputs if i not in deps]
+            ctx.check(not missing, rule, 'memo-key-complete@%s' % c.short.split('::')[-1], b,
+                      good='the memo key depends on every by-reference input of the search',
+                      bad='%s::serialize keeps state across sibling branches in parameter %d (%s) under a key '
+                          'that does not depend on parameter(s) %s (%s): two search states that differ there are '
+                          'confused, so a branch is pruned because a DIFFERENT state was a dead end' %
+                          (short, m, b.locals[m]['ty'][:50], missing,
+                           [b.debug_name(i) for i in missing]), span=c.span)
+
+
 def search_skeleton(ctx, F, ty, rule, lin):
     short = ty.split('::')[-1]
     b = tester_fn(F, ty, 'serialize')
